@@ -111,7 +111,11 @@ def c18(ck, tier, seed):
             "parse.valid_rejected:*": "a member of the format was answered with a diagnostic; C18 only demands "
                                       "'a problem or a diagnostic', so this is reported here and not as a violation"},
         "samples": {k: v for k, v in list(info.samples.items())[:6]}}
-    ck.cov["exhaustive"] = tier == "thorough"
+    # classes (1) and (2) are complete in the thorough tier; the 3-input / 3-gate / 3-literal space of the
+    # property's quantifier (about 2*10^12 circuits) is sampled, not enumerated
+    ck.cov["exhaustive"] = False
+    ck.cov["exhaustive_note"] = ("thorough: classes (1) [381 372 circuits x root sets] and (2) [62 550 gates] complete; "
+                                 "quick: seeded 1/16 and 1/2 of them; class (3) is a seeded sample in both tiers")
 
     # design level: the contract is satisfiable and the evaluator is the definition
     mc = vlib.model_check("Circuit", "MC_Circuit", workers=4, xmx="3g", timeout=1500,
